@@ -18,9 +18,15 @@ tulz::ThreadPool *g_pool;
 struct Task;
 int task_id_of(tulz::Runnable *r);
 
-uint64_t pool_state() {
-    if (!g_pool) return 0;
+// private members are probed at compile time (a refactoring of tulz may rename them): without the known layout the fingerprint is only a counter and the stateful programs are left out
+template<typename P> constexpr bool known_layout_v = requires(P &p) { p.m_queue.begin(); p.m_queue.size(); p.m_pool.size(); (uint64_t)p.m_isRunning; (uint64_t)p.m_maxThreadCount; (uint64_t)p.m_expiryTimeout; };
+constexpr bool kKnownLayout = known_layout_v<tulz::ThreadPool>;
+template<typename P> uint64_t pool_state_of(P *pool);
+
+uint64_t pool_state() { return g_pool ? pool_state_of(g_pool) : 0; }
+template<typename P> uint64_t pool_state_of(P *g_pool) {
     uint64_t h = 3;
+    if constexpr (!known_layout_v<P>) return h; else {
     h = vs_mix(h, g_pool->m_queue.size());
     for (auto r : g_pool->m_queue) h = vs_mix(h, (uint64_t)(task_id_of(r) + 2));      // which tasks are queued, in order
     h = vs_mix(h, g_pool->m_pool.size());
@@ -28,6 +34,7 @@ uint64_t pool_state() {
     h = vs_mix(h, g_pool->m_isRunning);
     h = vs_mix(h, (uint64_t)g_pool->m_maxThreadCount); h = vs_mix(h, (uint64_t)(g_pool->m_expiryTimeout + 7));
     return h;
+    }
 }
 
 // ---- stateful pass: the life cycle of every task is kept in scheduler cells (part of the state fingerprint) and judged online
@@ -256,6 +263,7 @@ std::string ev_name(const vs_ev &e) {
 }
 
 void add(VSuite &suite, Spec s, int bound, const std::string &flavour) {
+    if (s.stateful && !kKnownLayout) return;      // the stateful pass needs the complete state of the pool
     VProgram p;
     p.name = s.script + "-max" + std::to_string(s.maxThreads) + (s.expiry >= 0 ? "-expiry" + std::to_string(s.expiry) : "") + (s.spurious ? "+spurious" : "") + (s.stateful ? "@all" : "");
     p.spurious = s.spurious; p.stateful = s.stateful;
@@ -301,7 +309,7 @@ bool provider(const std::string &prop, const std::string &tier, const std::strin
     { Spec s = base; s.script = "FFWX"; s.maxThreads = 2; add(suite, s, 2, flavour); }          // template start(T, Args&&...)
     { Spec s = base; s.script = "FSCFX"; s.maxThreads = 1; add(suite, s, 3, flavour); }
     // ---- stateful pass: ALL schedules of these scripts
-    if (flavour == "plain") {
+    if (flavour == "plain" || flavour == "hooked") {
         for (int mt : {1, 2}) for (const char *sc : {"SWX", "SX", "SSWX", "SSX", "SCSWX", "SXSWX", "SSCX", "SWSWX", "SWXX"}) { Spec s = base; s.script = sc; s.maxThreads = mt; s.stateful = true; add(suite, s, 0, flavour); }
         for (int mt : {1, 2}) for (const char *sc : {"SWX", "SXSWX"}) { Spec s = base; s.script = sc; s.maxThreads = mt; s.stateful = true; s.spurious = 1; add(suite, s, 0, flavour); }
         if (thorough) for (const char *sc : {"SSSWX", "SSCSX", "SSXSSWX"}) { Spec s = base; s.script = sc; s.maxThreads = 2; s.stateful = true; add(suite, s, 0, flavour); }
